@@ -220,7 +220,7 @@ find_short_option(char opt)
     spif_int32_t j;
 
     D_OPTIONS(("opt == \"%c\"\n", opt));
-    for (j = 0; j < SPIFOPT_NUMOPTS_GET(); j++) {
+    for (j = 0; opt && j < SPIFOPT_NUMOPTS_GET(); j++) {
         if (SPIFOPT_OPT_SHORT(j) == opt) {
             D_OPTIONS(("Match found at %d:  %c == %c\n", j, SPIFOPT_OPT_SHORT(j), opt));
             return j;
@@ -537,8 +537,8 @@ spifopt_parse(int argc, char *argv[])
             /* NEXT_ARG(); */
             break;
         } else if (opt == SPIF_CHARPTR(argv[i])) {
-            /* If it's not an option, skip it. */
-            if (*opt != '-') {
+            /* If it's not an option (a lone "-" is an ordinary word), skip it. */
+            if (*opt != '-' || !opt[1]) {
                 NEXT_ARG();
             } else {
                 opt++;
